@@ -74,7 +74,7 @@ func c11Case(c *hx.Ctx, r *hx.RNG, idx int64) {
 	if c.Verbose {
 		fmt.Println("case:", what)
 	}
-	pre := hx.Snapshot(x)
+	pre, preRaw := hx.Snapshot(x), hx.RawOf(x)
 	var text string
 	pi := hx.Try(func() {
 		switch ft {
@@ -116,7 +116,7 @@ func c11Case(c *hx.Ctx, r *hx.RNG, idx int64) {
 		c.Violate("panic", fmt.Sprintf("%s: %s panic %q at %s", what, pi.Class, pi.Text, pi.Stack), "")
 		return
 	}
-	if !hx.SameState(pre, hx.Snapshot(x)) {
+	if !hx.SameState(pre, hx.Snapshot(x)) || !preRaw.Identical(hx.RawOf(x)) {
 		c.Violate("operand-modified", what+": formatting changed x", "")
 		return
 	}
